@@ -34,7 +34,11 @@ type primaryGC struct {
 	reclaimed   int64
 }
 
-type UpdateIndexFunc func([]byte, types.Block) error
+// UpdateIndexFunc re-points the index entry of a key from the location of a
+// relocated record to its new location. It must return an error, and leave
+// the index unchanged, if the index does not name the old location for that
+// key, since the record is then not the key's current record.
+type UpdateIndexFunc func(indexKey []byte, oldBlk, newBlk types.Block) error
 
 func newGC(primary *MultihashPrimary, freeList *freelist.FreeList, interval, timeLimit time.Duration, updateIndex UpdateIndexFunc) *primaryGC {
 	gc := &primaryGC{
@@ -338,11 +342,18 @@ func (gc *primaryGC) reapRecords(fileNum uint32, lowUsePercent int64, relocate b
 			}
 			vhook.Point("pgc.reap.relocated")
 			// Update the index with the new primary location.
-			if err = gc.updateIndex(indexKey, fileOffset); err != nil {
+			oldBlk := types.Block{
+				Size:   types.Size(busySize),
+				Offset: absolutePrimaryPos(types.Position(busyAt), fileNum, gc.primary.maxFileSize),
+			}
+			if err = gc.updateIndex(indexKey, oldBlk, fileOffset); err != nil {
 				log.Errorw("Cannot update index with new record location", "err", err)
 				// Failed to index the moved record, most likely because the
-				// key was not found in the index. The moved record is
-				// unreachable so it must be removed.
+				// key was not found in the index or the record is not the
+				// one the index names for the key (a superseded record whose
+				// freelist entry was lost, or a record that was never
+				// indexed). The moved record is unreachable so it must be
+				// removed.
 				if err = gc.freeList.Put(fileOffset); err != nil {
 					log.Errorw("Cannot put failed index record location into freelist", "err", err)
 				}
